@@ -159,22 +159,24 @@ def determinants(segs):
     return sorted(info)
 
 
-def alt_forms(label, n):
+def alt_forms(label, n, wide=False):
     """the legal non-canonical forms of one determinant: long form with 1..3 length octets where the canonical form is
-    the short one; otherwise 1..2 leading zero octets"""
+    the short one; otherwise 1..2 leading zero octets.  wide: also the form with 9 octets (8 leading zero octets for a
+    quantity): more octets than a size_t has, all but the last ones zero (oer_fetch_length / oer_fetch_quantity skip
+    leading zero octets BEFORE they compare the number of octets with sizeof(size_t))"""
     if label == "qval":
-        return [("z", 1), ("z", 2)]
+        return [("z", 1), ("z", 2)] + ([("z", 8)] if wide else [])
     if n <= 127:
-        return [("l", 1), ("l", 2), ("l", 3)]
+        return [("l", 1), ("l", 2), ("l", 3)] + ([("l", 9)] if wide else [])
     k = min_len_octets(n)
-    return [("l", k + 1), ("l", k + 2)]
+    return [("l", k + 1), ("l", k + 2)] + ([("l", 9)] if wide and k + 2 < 9 else [])
 
 
 def form_str(f):
     return f[0] + ("%d" % f[1] if len(f) > 1 else "")
 
 
-def sweep(segs, rng, max_positions=None, nmix=3):
+def sweep(segs, rng, max_positions=None, nmix=3, wide_all=False):
     """-> [(label, forms dict, bytes)]: every determinant position in every alternative form (one position at a time),
     all positions at once per form rank, random mixes.  With max_positions, the first, the last and a random sample of
     the positions in between (bitmap / alt positions always)."""
@@ -188,8 +190,10 @@ def sweep(segs, rng, max_positions=None, nmix=3):
             keep.add(rng.below(len(pos)))
         pos = [pos[i] for i in sorted(keep)]
     out = []
+    # the 9-octet forms: every position (thorough) / every framing position and one contents position (quick)
+    wide_one = pos[rng.below(len(pos))][0]
     for (num, label, n) in pos:
-        for f in alt_forms(label, n):
+        for f in alt_forms(label, n, wide=(wide_all or label not in ("int", "oct") or num == wide_one)):
             out.append(("%s@%d:%s" % (label, num, form_str(f)), {num: f}))
     for rank in (0, 1, 2):
         forms = {}
